@@ -145,6 +145,7 @@ type agentRig struct {
 	counts  map[string]int
 	delays  map[string]int
 	ctr     int
+	holds   map[string]chan struct{}
 }
 
 var (
@@ -167,8 +168,17 @@ func getRig(t vh.TB) *agentRig {
 		r.mu.Lock()
 		r.counts[tok]++
 		d := r.delays[tok]
+		hold := r.holds[tok]
 		r.mu.Unlock()
-		if d > 0 {
+		if hold != nil {
+			// the long-outstanding request: it stays at the backend until the harness has played all list replies (a fixed
+			// time would let it finish early on a busy machine, and a finished request that 1000 others have pushed out of
+			// the window of remembered ids is outside what the property promises)
+			select {
+			case <-hold:
+			case <-time.After(120 * time.Second):
+			}
+		} else if d > 0 {
 			time.Sleep(time.Duration(d) * time.Millisecond)
 		}
 		body := "done:" + tok
@@ -225,6 +235,12 @@ func runCaseA(t vh.TB, c *CaseA) vh.Outcome {
 		uploadDelay[ids[i]] = c.UploadDelay[i%len(c.UploadDelay)]
 		r.mu.Lock()
 		r.delays[toks[i]] = c.BackendMs[i%len(c.BackendMs)]
+		if c.N > 1000 && i == 0 {
+			if r.holds == nil {
+				r.holds = map[string]chan struct{}{}
+			}
+			r.holds[toks[i]] = make(chan struct{})
+		}
 		r.mu.Unlock()
 	}
 	r.fp.SetFetchHook(func(q *vh.FPRequest, w http.ResponseWriter, rq *http.Request) bool {
@@ -293,6 +309,13 @@ func runCaseA(t vh.TB, c *CaseA) vh.Outcome {
 			time.Sleep(time.Duration(g) * time.Millisecond)
 		}
 	}
+	// all list replies have been played: the long-outstanding request may finish now
+	r.mu.Lock()
+	if h := r.holds[toks[0]]; h != nil {
+		time.AfterFunc(150*time.Millisecond, func() { close(h) })
+		delete(r.holds, toks[0])
+	}
+	r.mu.Unlock()
 	relisted := false
 	for i := range listed {
 		if listed[i] >= 2 {
